@@ -198,5 +198,5 @@ def t_accrue(world):
 
 
 def tasks(tier):
-    from specs.flows import flow_task, FLOWS
-    return [('state_changes', t_state_changes), ('lemma_chain', t_lemma_chain), ('accrue', t_accrue)] + [(f'flow:{n}', flow_task(n, ('C06',))) for n in FLOWS]
+    from specs.flows import flow_task, FLOWS, INTEGRATION_FLOWS
+    return [('state_changes', t_state_changes), ('lemma_chain', t_lemma_chain), ('accrue', t_accrue)] + [(f'flow:{n}', flow_task(n, ('C06',))) for n in FLOWS if n not in INTEGRATION_FLOWS]
